@@ -202,14 +202,14 @@ def run(ctx):
             if name == "find_start_node":
                 gfr = paths.guarded(g, c2, lambda fn, cc, pol: paths.rel(fn, cc, pol, subst=False) in (("0", "==", "node->sf"), ("node->sf", "==", "0")))
             else:
-                gfr = paths.guarded(g, c2, lambda fn, cc, pol: paths.rel(fn, cc, pol, subst=False) in (("(dag->n_frames - 1)", "==", "node->lef"), ("node->lef", "==", "(dag->n_frames - 1)")))
+                gfr = paths.guarded(g, c2, lambda fn, cc, pol: paths.rel(fn, cc, pol, subst=False) in (("(dag->n_frames - 1)", "==", "node->lef"), ("node->lef", "==", "(dag->n_frames - 1)")) or paths.rel(fn, cc, pol) in (("(dag->n_frames - 1)", "==", "node->lef"), ("node->lef", "==", "(dag->n_frames - 1)")))
             ctx.check(l4, gadj and gfr, key(g, "candidate-test"), g.where(c2), "candidate test is not (frame at utterance %s and has %s)" % ("start" if name == "find_start_node" else "end", adj))
         for c2 in g.calls(None):
             pass
         derefs = [i for i in g.find("Call") if g.nodes[i].get("callee") == "gnode_ptr" or "gnode_ptr" in g.mac(i)]
         derefs = [s["node"] for s in paths.stores(g) if s["path"] == "node" and s["rhs"] is not None and g.canon(s["rhs"], subst=False) in ("%s->data.ptr" % lst, "gnode_ptr(%s)" % lst)]
         for d_ in derefs:
-            gg = paths.guarded(g, d_, lambda fn, cc, pol: paths.rel(fn, cc, pol, subst=False) in (("1", "==", cnt), (cnt, "==", "1")))
+            gg = paths.guarded_equal(g, d_, lambda fn, n_, cnt=cnt: fn.canon(n_, subst=False) == cnt, 1)
             ctx.check(l4, gg, key(g, "single-candidate"), g.where(d_), "first element of the candidate list is taken without knowing the list has exactly one element")
         ctx.check(l4, len(derefs) == 1, key(g, "deref-sites"), g.where(g.root), "expected one direct use of the candidate list head (found %d)" % len(derefs))
     # fallback end node: the word instance with the latest last-exit frame that has entries
@@ -218,7 +218,7 @@ def run(ctx):
     es = [s for s in paths.stores(g) if s["path"] == "ef" and s["rhs"] is not None and not paths.is_const(g, s["rhs"])]
     ok = len(ls) == 1 and len(es) == 1 and g.canon(es[0]["rhs"], subst=False) == "node->lef" and paths.same_block(g, ls[0]["node"], es[0]["node"])
     if ok:
-        ok = paths.guarded(g, ls[0]["node"], lambda fn, cc, pol: paths.rel(fn, cc, pol, subst=False) == ("ef", "<", "node->lef")) and paths.guarded(g, ls[0]["node"], lambda fn, cc, pol: paths.cond_atoms(fn, cc, pol, subst=False) == ("node->entries", True)) and paths.guarded(g, ls[0]["node"], lambda fn, cc, pol: paths.rel(fn, cc, pol, subst=False) in (("0", "==", "nend"), ("nend", "==", "0")))
+        ok = paths.guarded(g, ls[0]["node"], lambda fn, cc, pol: paths.rel(fn, cc, pol, subst=False) == ("ef", "<", "node->lef")) and paths.guarded(g, ls[0]["node"], lambda fn, cc, pol: paths.cond_atoms(fn, cc, pol, subst=False) == ("node->entries", True)) and paths.guarded_equal(g, ls[0]["node"], lambda fn, n_: fn.canon(n_, subst=False) == "nend", 0)
     ctx.check(l4, ok, key(g, "fallback-end"), g.where(g.root), "without a candidate in the last frame the end node must be the node with entries whose *last* exit frame is latest (max-merge on node->lef, co-updating the node): another choice ends the lattice before the first-best path does")
     # order in fsg_search_lattice: start, end, wid conversion, reachability
     seq_names = ["find_start_node", "find_end_node", "mark_reachable", "lattice_delete_unreachable"]
